@@ -86,6 +86,28 @@ def parseFind (args : List String) : Option (Nat × Bool × Addr.Src × List Add
     pure (ty, sp = "1", { fam := f, addr := a, port := port }, cs)
   | _ => none
 
+/-- `udprd`: the arguments of `findconf` followed by `D<addrhex>:<port>:<id>` datagrams. For each datagram, in order, the block
+    of that transport whose host list names its source address AND port (`findConf … serverP = true`), if any. -/
+def udprdModel (args : List String) : Option (List (Nat × Nat)) :=
+  let dgs := args.filter (·.startsWith "D")
+  let rest := args.filter (fun a => !a.startsWith "D")
+  match rest with
+  | ty :: _ :: _ :: _ :: _ :: confs =>
+    dgs.foldlM (fun acc d =>
+      match (d.drop 1).toString.splitOn ":" with
+      | [a, port, id] =>
+        match parseFind (ty :: "1" :: "4" :: a :: port :: confs), id.toNat? with
+        | some (t, _, src, cs), some id =>
+          match Addr.findConf t src cs true with
+          | some i => some (acc ++ [(id, i)])
+          | none => some acc
+        | _, _ => none
+      | _ => none) []
+  | _ => none
+
+def showUdprd (l : List (Nat × Nat)) : String :=
+  if l.isEmpty then "none" else " ".intercalate (l.map fun (id, i) => s!"{id}@{i}")
+
 def showOpt (r : Option Bytes) : String :=
   match r with | some v => "ok " ++ toHex v | none => "rej"
 
@@ -695,6 +717,7 @@ def model (op : String) (args : List String) : String :=
     | some (ty, sp, src, cs) =>
       match Addr.findConf ty src cs sp with | some i => toString i | none => "none"
     | none => "bad-op"
+  | "udprd", args => (match udprdModel args with | some l => showUdprd l | none => "bad-op")
   | "connstate", [_, st, _] =>
     match st.toNat? with
     | some st => s!"st={Choose.connectStart st} ret=0"
@@ -889,6 +912,11 @@ def spec (op : String) (args impl : List String) : String :=
       match ri with
       | some ri => if Spec.findConfOk ty src cs sp ri then "ok" else "bad attribution"
       | none => "bad attribution-output-shape"
+    | none => "bad-op"
+  | "udprd", args, impl =>
+    -- a reply is taken only from the address and port of a configured server, and attributed to the first block naming them
+    match udprdModel args with
+    | some l => if impl = (showUdprd l).splitOn " " then "ok" else "bad attribution (UDP reply source)"
     | none => "bad-op"
   | "pwdrecrypt", [p, os, ns, oa, na, osalt, nsalt], impl =>
     match ofHex p, ofHex os, ofHex ns, ofHex oa, ofHex na, ofHex osalt, ofHex nsalt, parseOpt impl with
